@@ -130,7 +130,8 @@ def vector_ops():
                     e = Bin("*", V("s", sc), V("a", vt), bin_type("*", sc, vt))
                 else:
                     e = Bin("/", V("a", vt), V("s", sc), bin_type("/", vt, sc))
-                svals = [2, -3] if sc == INT else [2.0, -0.5]
+                # (divisors whose reciprocal is not exact: a quotient is not a product with the reciprocal)
+                svals = [2, -3, 7] if sc == INT else [2.0, -0.5, 3.0, 0.7]
                 funcs.append((fn("o%d" % k, [(vt, "a"), (sc, "s")], e.ty, [Return(e)]),
                               [{"a": vals(vc, n), "s": s} for s in svals] + [{"a": vals(vc, n, True), "s": svals[0]}]))
                 k += 1
@@ -190,8 +191,20 @@ def matrix_ops():
             s = V("s", sc)
             sv = 2 if sc == INT else 0.5
             for form, e in (("m*s", Bin("*", A, s, mt)), ("s*m", Bin("*", s, A, mt)), ("m/s", Bin("/", A, s, mt))):
-                funcs.append((fn("m%d" % k, [(mt, "a"), (sc, "s")], mt, [Return(e)]), [{"a": mvals(n), "s": sv}]))
+                funcs.append((fn("m%d" % k, [(mt, "a"), (sc, "s")], mt, [Return(e)]),
+                              [{"a": mvals(n), "s": sv}] + [{"a": mvals(n, True), "s": x} for x in ([3, 7, -5] if sc == INT else [3.0, 0.7, -1.1])]))
                 k += 1
+            # the compound forms of the same operations: `a op= s` is `a = a op s`
+            for cop in ("*=", "/="):
+                funcs.append((fn("m%d" % k, [(mt, "a"), (sc, "s")], mt, [ExprStmt(Assign(cop, A, s)), Return(A)]),
+                              [{"a": mvals(n), "s": sv}] + [{"a": mvals(n, True), "s": x} for x in ([3, 7] if sc == INT else [3.0, 0.7])]))
+                k += 1
+        # `a *= b` with two matrices is `a = a * b` (not b * a), `a += b`, `a -= b` element-wise
+        for cop in ("*=", "+=", "-="):
+            funcs.append((fn("m%d" % k, [(mt, "a"), (mt, "b")], mt, [ExprStmt(Assign(cop, A, B_)), Return(A)]), two + [{"a": mvals(n, True), "b": mvals(n)}]))
+            k += 1
+        funcs.append((fn("m%d" % k, [(mt, "a"), (mt, "b")], mt, [Decl(mt, "c", B_), ExprStmt(Assign("*=", V("c", mt), A)), ExprStmt(Assign("*=", V("c", mt), V("c", mt))), Return(V("c", mt))]), two))
+        k += 1
         funcs.append((fn("m%d" % k, [(mt, "a"), (vt, "v")], vt, [Return(Bin("*", A, V("v", vt), vt))]),
                       [{"a": mvals(n), "v": vals(FLOAT, n)}, {"a": mvals(n, True), "v": vals(FLOAT, n, True)}]))
         k += 1
